@@ -259,6 +259,30 @@ func c06Requests(w *mintops.W, honest []c06Req, pairs bool) []c06Req {
 			c06Req{Endpoint: "swap", Method: "POST", Path: "/v1/swap", Class: "semantic:duplicate-input",
 				Body: jsonStr(map[string]any{"inputs": proofsJSON(cashu.Proofs{p, p}), "outputs": msgsJSON(w.U.Outputs(act, world.Split(2*p.Amount)...))})},
 		)
+		// the same proof twice, the copies differing in a member that does not identify it (a whole-struct duplicate check
+		// cannot see them; the store's key is the secret alone): a witness the plain secret does not need, a DLEQ object
+		for _, extra := range [][2]any{{"witness", "x"}, {"dleq", map[string]any{"e": strings.Repeat("11", 32), "s": strings.Repeat("22", 32), "r": strings.Repeat("33", 32)}}} {
+			kind := extra[0].(string)
+			for _, first := range []bool{false, true} {
+				pj := proofsJSON(cashu.Proofs{p, p})
+				pos := map[bool]int{true: 0, false: 1}[first]
+				pj[pos][extra[0].(string)] = extra[1]
+				total := 2 * p.Amount
+				if fee := w.FeeFor(cashu.Proofs{p, p}).Uint64(); fee < total {
+					total -= fee
+				}
+				cls := fmt.Sprintf("semantic:same-input-twice-different-%s(%s copy)", kind, map[bool]string{true: "first", false: "second"}[first])
+				out = append(out, c06Req{Endpoint: "swap", Method: "POST", Path: "/v1/swap", Class: cls,
+					Body: jsonStr(map[string]any{"inputs": pj, "outputs": msgsJSON(w.U.Outputs(act, world.Split(total)...))})})
+				for _, m := range w.Melts {
+					if m.Known == "" {
+						out = append(out, c06Req{Endpoint: "melt", Method: "POST", Path: "/v1/melt/bolt11", Class: cls,
+							Body: jsonStr(map[string]any{"quote": m.Q.Id, "inputs": pj})})
+						break
+					}
+				}
+			}
+		}
 		// two outputs with the same B_ that differ in another field (struct-inequal, so a whole-struct duplicate check
 		// cannot see them; the signature table is unique on B_ alone)
 		if p.Amount >= 2 {
